@@ -58,12 +58,31 @@ struct WrapPlan {
   uint64_t truncated = 0; // calls that delivered fewer bytes than requested because of the plan
   uint64_t delivered = 0; // bytes handed out
   uint64_t eof_after = UINT64_MAX; // the source ends after this many bytes (a file that shrank after fstat)
+  std::vector<uint64_t> fail_calls; // indices of the read()/pread() calls on fd that fail (-1, fail_errno) without consuming anything
+  int fail_errno = EINTR;
+  uint64_t faulted = 0; // calls that failed because of the plan
   void arm(int f, const Limiter& l, uint64_t eof = UINT64_MAX) {
     fd = f;
     lim = l;
-    calls = truncated = delivered = 0;
+    calls = truncated = delivered = faulted = 0;
     eof_after = eof;
+    fail_calls.clear();
+    fail_errno = EINTR;
     active = true;
+  }
+  void set_faults(const std::vector<uint64_t>& calls_that_fail, int err) {
+    fail_calls = calls_that_fail;
+    fail_errno = err;
+  }
+  // true when the call about to be made is one the plan makes fail (counts it)
+  bool fail_now() {
+    for (uint64_t k : fail_calls)
+      if (k == calls) {
+        calls++;
+        faulted++;
+        return true;
+      }
+    return false;
   }
   void disarm() {
     active = false;
@@ -299,10 +318,20 @@ struct Cookie {
   size_t pos = 0;
   Limiter lim;
   uint64_t calls = 0, truncated = 0;
+  std::vector<uint64_t> fail_calls; // indices of the read callbacks that fail (-1, fail_errno) without consuming anything
+  int fail_errno = EINTR;
+  uint64_t faulted = 0;
 };
 
 inline ssize_t cookie_read(void* ck, char* buf, size_t size) {
   Cookie* c = static_cast<Cookie*>(ck);
+  for (uint64_t k : c->fail_calls)
+    if (k == c->calls) {
+      c->calls++;
+      c->faulted++;
+      errno = c->fail_errno;
+      return -1;
+    }
   uint64_t l = c->lim.next();
   size_t remaining = c->content->size() - c->pos;
   size_t n = std::min<uint64_t>(std::min<uint64_t>(size, l), remaining);
